@@ -34,6 +34,10 @@ QUICK_RS = [(0, 1, 6), (1, Fraction(1, 2), 8), (1, Fraction(1, 4), 8), (0, Fract
 MORE_RS = [(0, Fraction(1, 20), 14), (1, Fraction(1, 8), 10), (Fraction(1, 10), Fraction(1, 10), 12), (10, Fraction(1, 2), 6), (0, Fraction(3, 10), 8)]
 
 
+# run specs whose dt has no terminating decimal expansion (XMILE: <dt reciprocal="true">3</dt>)
+RECIPROCAL_RS = [(0, Fraction(1, 3), 6), (1, Fraction(1, 12), 12), (0, Fraction(1, 6), 9)]
+
+
 def runspec(start, dt, n):
     return "[start |-> %s, dt |-> %s, n |-> %d]" % (q(start), q(dt), n)
 
